@@ -160,24 +160,31 @@ func perturbVector(t *rapid.T, opr []uint64, tol float64, allowOutside bool, inf
 		o := float64(opr[k])
 		// choose the SPR value s so that o relates to s*(1±tol) as wanted
 		var s float64
-		switch rapid.IntRange(0, 5).Draw(t, "pkind") {
+		switch rapid.IntRange(0, 8).Draw(t, "pkind") {
 		case 0: // comfortably inside
 			s = o * (1 + tol/3)
 		case 1: // just inside the upper edge: o slightly below s*(1+tol)
-			s = o / (1 + tol) * 1.0001
+			s = o / (1 + tol) * 1.0004
 			info.Near++
 		case 2: // just inside the lower edge
-			s = o / (1 - tol) * 0.9999
+			s = o / (1 - tol) * 0.9996
 			info.Near++
-		case 3, 4:
+		case 3, 4, 5, 6:
 			if !allowOutside {
 				s = o * (1 - tol/3)
 				break
 			}
-			if rapid.Bool().Draw(t, "above") {
-				s = o / (1 + tol) * 0.98 // o above the band
-			} else {
-				s = o / (1 - tol) * 1.02 // o below the band
+			switch rapid.IntRange(0, 3).Draw(t, "outKind") {
+			case 0:
+				s = o / (1 + tol) * 0.98 // o well above the band
+			case 1:
+				s = o / (1 - tol) * 1.02 // o well below the band
+			case 2:
+				s = o / (1 + tol) * 0.9996 // o just above the upper edge
+				info.Near++
+			default:
+				s = o / (1 - tol) * 1.0004 // o just below the lower edge
+				info.Near++
 			}
 			info.Outside++
 		default:
